@@ -519,7 +519,8 @@ def run(repo, rep):
                     except (CannotEvaluate, SyntaxError, Exception):
                         return t
                 flags = tuple(_fold_flag(x) for x in ev.args[2:4])
-                if src.startswith('dsutils.encode(self.command_set'):
+                if 'self.command_set' in src and 'data_set' not in src:
+                    # (how the command set becomes bytes is C08's business: here it is the thing that is fragmented)
                     seen_cmd = True
                     if ev.kind != 'fragment' or flags != tuple(str(x) for x in CMD_FLAGS):
                         p4.append('command set fragmented with flags %s, PS3.8 E.2: %s' % (flags, CMD_FLAGS))
